@@ -375,7 +375,7 @@ def weave_stack(u, u4):
             ('C18 C05:without-a-real-fault-a-failed-write-published-nothing', 'r.is_err() && final(w).hard_faults == old(w).hard_faults ==> final(w).published == old(w).published'),
             ('C01 C03 C19:a-write-never-changes-the-bytes-of-any-file',
              'bytes_kept(*old(w), *final(w))'),
-            ('C13 C11:success-means-a-publication-happened' + ('' if op == 'set' else '-unless-the-key-was-already-bound'),
+            ('C13 C11 C18:success-means-a-publication-happened' + ('' if op == 'set' else '-unless-the-key-was-already-bound'),
              'r.is_ok() ==> final(w).published > old(w).published' + ('' if op == 'set' else ' || self.lookup(old(w).files, key).is_some()')),
             ('C02 C18:valid-on-every-exit', 'final(w).inv()'), ('', 'final(w).kept_nc(*old(w))'),
             ('C16:invalid-names-fail-with-invalid-input-and-modify-nothing',
@@ -668,7 +668,7 @@ pub open spec fn read_copies_accepted(rs: ReadOnlyCache, links: Map<PathV, Inode
             ('C18 C05:without-a-real-fault-a-failed-write-published-nothing', 'r.is_err() && final(w).hard_faults == old(w).hard_faults ==> final(w).published == old(w).published'),
             ('C01 C03 C19:a-write-never-changes-the-bytes-of-any-file',
              'bytes_kept(*old(w), *final(w))'),
-            ('C13 C11:success-means-a-publication-happened' + ('' if op == 'set' else '-unless-the-key-was-already-bound'),
+            ('C13 C11 C18:success-means-a-publication-happened' + ('' if op == 'set' else '-unless-the-key-was-already-bound'),
              'r.is_ok() ==> final(w).published > old(w).published' + ('' if op == 'set' else ' || %s.lookup(old(w).files, key).is_some()' % ws)),
             INV, ('', 'final(w).kept_nc(*old(w))'),
             ('C13 C15:without-a-write-cache-writes-fail-as-unsupported-and-change-nothing',
@@ -708,7 +708,7 @@ pub open spec fn read_copies_accepted(rs: ReadOnlyCache, links: Map<PathV, Inode
                 INV, ('', 'final(w).kept_nc(*old(w))'),
                 ('C13:without-a-write-cache-nothing-is-published', '%s.writer().is_none() ==> r.is_err() && final(w).published == old(w).published && final(w).dirs == old(w).dirs' % this),
                 ('C11 C18:success-consumes-the-source', 'r.is_ok() ==> old(w).files.contains_key(%s) && !final(w).files.contains_key(%s)' % (VAL, VAL)),
-                ('C13 C11:success-means-a-publication-happened' + ('' if op.startswith('set') else '-unless-the-key-was-already-bound'),
+                ('C13 C11 C18:success-means-a-publication-happened' + ('' if op.startswith('set') else '-unless-the-key-was-already-bound'),
                  'r.is_ok() ==> final(w).published > old(w).published' + ('' if op.startswith('set') else ' || %s.lookup(old(w).files, key).is_some()' % TW_)),
                 ('C18 C05:error-is-explained',
                  'r.is_err() ==> %s.writer().is_none() || %s || final(w).hard_faults > old(w).hard_faults || !final(w).files.contains_key(%s) || !old(w).files.contains_key(%s)' % (this, REJ, VAL, VAL)),
@@ -881,15 +881,19 @@ pub fn opt_arc_as_ref<T: ?Sized>(o: &Option<Arc<T>>) -> (r: Option<&T>)
     pr.air = r'stack::impl&%\d+::get_or_update::promote'
     pr.add_param(W)
     NAME = 'str_bytes(key.name)'
+    # the flag is a parameter today; if a change drops it, the clause about it goes too and the flush obligation
+    # falls on the precondition of `cache.put` (a flushed file when auto_sync demands it)
+    po, pc = pr.params()
+    has_sync = pr._find('sync : bool', count=True, lo=po, hi=pc) == 1
     pr.contract(
         requires=[('', 'old(w).inv() && cache.level_wf() && cache.rw(old(w).cfg()) && valid_key(%s) && old(w).inodes.contains_key(file.ino())' % NAME),
-                  ('C03:promotion-flushes-exactly-when-auto-sync-is-on', 'old(w).must_sync == sync'),
+                  ] + ([('C03:promotion-flushes-exactly-when-auto-sync-is-on', 'old(w).must_sync == sync')] if has_sync else []) + [
                   ('C13 C01 C19:the-hit-is-copied-from-its-first-byte', 'file.offset() == 0'),
                   ('C01:only-bytes-supplied-for-this-key-are-promoted', 'old(w).supplied.contains((%s, old(w).inodes[file.ino()].content))' % NAME)],
         ensures=[
             INV, ('', 'final(w).kept_nc(*old(w))'),
-            ('C13 C19:the-hit-itself-is-returned-rewound', 'r.is_ok() ==> r.unwrap().ino() == file.ino() && r.unwrap().can_write() == file.can_write() && r.unwrap().offset() == 0'),
-            ('C13 C11:an-identical-copy-is-published-in-the-write-cache-unless-the-key-was-already-bound',
+            ('C13 C19 C01:the-hit-itself-is-returned-rewound', 'r.is_ok() ==> r.unwrap().ino() == file.ino() && r.unwrap().can_write() == file.can_write() && r.unwrap().offset() == 0'),
+            ('C13 C11 C18:an-identical-copy-is-published-in-the-write-cache-unless-the-key-was-already-bound',
              'r.is_ok() ==> final(w).published > old(w).published || cache.lookup(old(w).files, key).is_some()'),
             ('C18 C05:without-a-real-fault-a-failed-promotion-published-nothing', 'r.is_err() && final(w).hard_faults == old(w).hard_faults ==> final(w).published == old(w).published'),
             ('C01 C15:the-hit-keeps-its-bytes', 'final(w).inodes.contains_key(file.ino()) && final(w).inodes[file.ino()].content == old(w).inodes[file.ino()].content'),
@@ -928,7 +932,7 @@ pub fn opt_arc_as_ref<T: ?Sized>(o: &Option<Arc<T>>) -> (r: Option<&T>)
             INV, ('', 'final(w).kept_nc(*old(w))'),
             ('C16:invalid-names-fail-with-invalid-input-and-change-nothing',
              '(self.writer().is_some() || %s.levels().len() > 0) && !first_byte_ok(%s) ==> r.is_err() && err_kind(err_of(r)) == ErrorKind::InvalidInput && final(w).same_fs(*old(w))' % (RS, NAME)),
-            ('C19 C13:every-returned-handle-is-positioned-at-offset-zero', 'r.is_ok() ==> r.unwrap().offset() == 0'),
+            ('C19 C13 C01:every-returned-handle-is-positioned-at-offset-zero', 'r.is_ok() ==> r.unwrap().offset() == 0'),
             ('C19:only-a-throw-away-file-is-ever-returned-writable',
              'r.is_ok() && r.unwrap().can_write() ==> self.writer().is_none() && !old(w).inodes.contains_key(r.unwrap().ino())'),
             ('C01:the-returned-file-holds-bytes-supplied-for-exactly-this-key',
@@ -943,7 +947,7 @@ pub fn opt_arc_as_ref<T: ?Sized>(o: &Option<Arc<T>>) -> (r: Option<&T>)
              '&& #[trigger] first_copy(%s.levels(), old(w).files, key, idx, hit_file(h).ino()) && hit_outcome(self, *old(w), *final(w), false, hit_file(h).ino(), a, r.unwrap())' % (WHIT, RS, RS)),
             ('C05 C18 C13:once-the-value-is-published-the-call-succeeds-unless-a-real-fault-follows',
              'r.is_err() ==> final(w).published == old(w).published || final(w).hard_faults > old(w).hard_faults'),
-            ('C13:a-miss-is-populated-and-stored-in-the-write-cache-or-served-from-a-throw-away-file',
+            ('C13 C18:a-miss-is-populated-and-stored-in-the-write-cache-or-served-from-a-throw-away-file',
              'r.is_ok() && !%s && no_read_copy(%s, old(w).files, key) ==> if self.writer().is_some() { final(w).published > old(w).published } else { '
              '!old(w).inodes.contains_key(r.unwrap().ino()) && final(w).published == old(w).published && namespace_same(*old(w), *final(w)) }' % (WHIT, RS)),
         ])
@@ -973,7 +977,7 @@ pub fn opt_arc_as_ref<T: ?Sized>(o: &Option<Arc<T>>) -> (r: Option<&T>)
                   ('', 'forall|d: &mut File| #[trigger] call_requires(populate, (d,))')],
         ensures=[
             INV, ('', 'final(w).kept_nc(*old(w))'),
-            ('C19 C13:every-returned-handle-is-positioned-at-offset-zero', 'r.is_ok() ==> r.unwrap().offset() == 0'),
+            ('C19 C13 C01:every-returned-handle-is-positioned-at-offset-zero', 'r.is_ok() ==> r.unwrap().offset() == 0'),
             ('C19:only-a-throw-away-file-is-ever-returned-writable', 'r.is_ok() && r.unwrap().can_write() ==> self.writer().is_none() && !old(w).inodes.contains_key(r.unwrap().ino())'),
             ('C01:the-returned-file-holds-bytes-supplied-for-exactly-this-key',
              'r.is_ok() ==> final(w).inodes.contains_key(r.unwrap().ino()) && final(w).supplied.contains((%s, final(w).inodes[r.unwrap().ino()].content))' % NAME),
